@@ -1,7 +1,9 @@
 //@UNIT props=C09,C11 mode=extract
-// Extract unit: TrackStore::merge_owned (src/track/store.rs), pasted verbatim, verified against *assumed* contracts
-// of the store operations it calls (fetch_tracks, merge_external, add_track: worker threads + Arc<Vec<Mutex<HashMap>>>,
-// out of both verifiers' reach; bounded probe store_c09; merge_external's "failure is reported" is the in-place
+// Extract unit: TrackStore::merge_owned (src/track/store.rs), pasted verbatim, verified against the contracts of the
+// store operations it calls. fetch_tracks and add_track: the clauses stated here are PROVED on the real bodies in unit
+// store_map_c09 (same clauses; its lemmas lemma_fetch_store_form / lemma_fetch_result_form give exactly this form; the
+// view there is an IMap because this vstd's Map is finite). merge_external: assumed (worker threads, out of both
+// verifiers' reach; bounded probe store_c09); merge_external's "failure is reported" is the in-place
 // obligation on FutureMergeResponse::get, its "failed merge changes nothing" is Track::merge's atomicity, unit track_c11).
 // What the proof decides, for every store content and every outcome of the merge: a failed owned merge leaves the
 // store exactly as it was (the fetched source is put back), a missing source is reported, the source leaves the store
@@ -53,9 +55,11 @@ pub struct TrackStore<TA, M, OA, N> { _p: core::marker::PhantomData<(TA, M, OA, 
 impl<TA, M, OA, N> TrackStore<TA, M, OA, N> {
     pub uninterp spec fn tracks(&self) -> Map<u64, Track<TA, M, OA, N>>;
 
-    // ---- assumed contracts of the store operations (trusted; bounded probe store_c09) ----
+    // ---- contracts of the store operations: fetch_tracks / add_track proved in unit store_map_c09; merge_external assumed ----
     #[verifier::external_body]
     pub fn fetch_tracks(&mut self, tracks: &[u64]) -> (r: Vec<Track<TA, M, OA, N>>)
+        requires
+            wf(old(self).tracks()),
         ensures
             final(self).tracks() == old(self).tracks().remove_keys(tracks@.to_set()),
             r@.map_values(|t: Track<TA, M, OA, N>| t.id()).no_duplicates(),
